@@ -27,7 +27,9 @@ var srcTargets = []srcTarget{
 	{Group: "Subject", Recv: "Subject", Name: "countTokenWildcards", Only: "V2"},
 	{Group: "Subject", Recv: "Subject", Name: "HasWildCards"},
 	{Group: "Subject", Recv: "Subject", Name: "IsContainedIn"},
+	{Group: "Subject", Recv: "Exports", Name: "HasExportContainingSubject"},
 	{Group: "Hash", Name: "cleanSubject"},
+	{Group: "Hash", Recv: "ActivationClaims", Name: "HashID"},
 	{Group: "Header", Recv: "Header", Name: "Valid"},
 	{Group: "Header", Recv: "identifier", Name: "Kind", Only: "V2"},
 	{Group: "Header", Recv: "identifier", Name: "Version", Only: "V2"},
@@ -37,6 +39,10 @@ var srcTargets = []srcTarget{
 	{Group: "Lists", Recv: "TagList", Name: "Contains"},
 	{Group: "Lists", Recv: "TagList", Name: "Add"},
 	{Group: "Lists", Recv: "TagList", Name: "Remove"},
+	{Group: "Lists", Recv: "CIDRList", Name: "Contains", Only: "V2"},
+	{Group: "Lists", Recv: "CIDRList", Name: "Add", Only: "V2"},
+	{Group: "Lists", Recv: "CIDRList", Name: "Remove", Only: "V2"},
+	{Group: "Lists", Recv: "CIDRList", Name: "Set", Only: "V2"},
 	{Group: "Revocation", Recv: "RevocationList", Name: "Revoke"},
 	{Group: "Revocation", Recv: "RevocationList", Name: "ClearRevocation"},
 	{Group: "Revocation", Recv: "RevocationList", Name: "allRevoked"},
@@ -154,6 +160,8 @@ var srcTargets = []srcTarget{
 	{Group: "DidSign", Recv: "StringList", Name: "Contains", Only: "V2"},
 	{Group: "DidSign", Recv: "OperatorClaims", Name: "DidSign", Only: "V2"},
 	{Group: "DidSign", Recv: "AccountClaims", Name: "DidSign", Only: "V2"},
+	{Group: "DidSign", Recv: "UserClaims", Name: "HasEmptyPermissions", Only: "V2"},
+	{Group: "DidSign", Recv: "UserScope", Name: "ValidateScopedSigner", Only: "V2"},
 }
 
 type untr struct{ msg string }
@@ -201,6 +209,8 @@ type tr struct {
 	vr         types.Object            // a *ValidationResults parameter: the list of issues so far, returned extended
 	returnsVr  map[types.Object]bool   // translated functions that take and return the issue list
 	localVR    map[types.Object]bool   // local variables holding validation results of their own (tvr := CreateValidationResults())
+	globalUse  map[string]string       // callee observation handed on as a global -> the abstract values the callee was called with
+	freshLocal map[types.Object]bool   // local variables holding an opaque value just made by a function of an imported package (h := sha256.New())
 	myAbs      []absParam              // this function's observations of its own receiver
 	paramRoot  map[string]int          // abstract parameters: name -> position
 	effects    bool                    // the body assigns fields of abstract values or calls their methods for effect
@@ -385,6 +395,7 @@ func (t *tr) isMap(e ast.Expr) bool {
 	_, ok := t.info.TypeOf(e).Underlying().(*types.Map)
 	return ok
 }
+
 // isSet: a map to the empty struct, used as a set (a list of its members, in the order they went in)
 func isSetType(ty types.Type) bool {
 	m, ok := ty.Underlying().(*types.Map)
@@ -817,6 +828,25 @@ func (t *tr) knownArgs2(x *ast.CallExpr, o types.Object, recvPrefix string) ([]s
 	for _, ap := range t.absParams[o] {
 		switch {
 		case ap.global:
+			if strings.Contains(ap.rel, "__") {
+				// an observation the callee makes of ITS abstract values (an untranslated function applied to one of them),
+				// handed on under the callee's name for it: sound only while this function hands the callee the same
+				// values at every call
+				sig := recvPrefix
+				for i, a := range x.Args {
+					if pth, ok := t.absPath(a); ok {
+						sig += fmt.Sprintf("|%d:%s", i, pth)
+					}
+				}
+				key := fmt.Sprintf("%p/%s", o, ap.rel)
+				if t.globalUse == nil {
+					t.globalUse = map[string]string{}
+				}
+				if prev, seen := t.globalUse[key]; seen && prev != sig {
+					t.fail(x, "two calls of %s with different abstract values, whose observation %s would be taken for one", o.Name(), ap.rel)
+				}
+				t.globalUse[key] = sig
+			}
 			as = append(as, t.observe(ap.rel, ap.ty))
 		case ap.root == -1 && strings.HasPrefix(recvPrefix, "\x01"):
 			// the receiver is a local variable holding a plain struct (a tuple): the observation is that field of it
@@ -1009,6 +1039,9 @@ func (t *tr) sepArg(e ast.Expr) string {
 func (t *tr) call(x *ast.CallExpr) string {
 	// conversions
 	if tv, ok := t.info.Types[x.Fun]; ok && tv.IsType() {
+		if u := t.unconv(x); u != ast.Expr(x) {
+			return t.expr(u) // a pointer seen as a pointer to another type with the same content
+		}
 		if len(x.Args) == 1 && t.coqType(x, tv.Type) == t.coqType(x.Args[0], t.info.TypeOf(x.Args[0])) {
 			if t.isInt(x.Args[0]) {
 				if src, ok := t.info.TypeOf(x.Args[0]).Underlying().(*types.Basic); ok {
@@ -1267,10 +1300,20 @@ func (t *tr) call(x *ast.CallExpr) string {
 			if prefix, isAbs := t.absPath(f.X); isAbs {
 				var tys, as []string
 				suffix := ""
-				for _, a := range x.Args {
+				for i, a := range x.Args {
 					if ap, isAbsArg := t.absPath(a); isAbsArg && !strings.HasPrefix(ap, "\x00") && !(t.isStr(a) || t.isInt(a) || t.isBool(a)) {
 						suffix += "__" + ap // applied to an abstract value: part of the observation's name
 						continue
+					}
+					if nid, ok := a.(*ast.Ident); ok {
+						if _, isNil := t.info.Uses[nid].(*types.Nil); isNil {
+							// nil handed for a byte-slice parameter: the empty text
+							if sig, ok := t.info.TypeOf(f).(*types.Signature); ok && i < sig.Params().Len() && t.coqType(a, sig.Params().At(i).Type()) == "string" {
+								tys = append(tys, "string")
+								as = append(as, "\"\"")
+								continue
+							}
+						}
 					}
 					tys = append(tys, t.coqType(a, t.info.TypeOf(a)))
 					as = append(as, t.expr(a))
@@ -1386,7 +1429,7 @@ func (t *tr) assigned(n ast.Node) []*types.Var {
 				}
 				if f, ok := c.Fun.(*ast.SelectorExpr); ok {
 					if sel, ok := t.info.Selections[f]; ok && t.mutates[sel.Obj()] {
-						add(f.X)
+						add(t.unconv(f.X))
 					}
 					if id, ok := f.X.(*ast.Ident); ok && t.isVRObj(t.info.Uses[id]) {
 						add(f.X) // vr.AddError(...)
@@ -1605,6 +1648,23 @@ func (t *tr) block0(stmts []ast.Stmt, c sctx, ind string) string {
 		}
 		return out + t.block(rest, c, ind)
 	case *ast.AssignStmt:
+		// h := pkg.F(...) for an opaque value: h is a fresh value of its own (methods called on it for effect rebind it)
+		if len(x.Lhs) == 1 && len(x.Rhs) == 1 && x.Tok == token.DEFINE {
+			if call, ok := x.Rhs[0].(*ast.CallExpr); ok {
+				if f, ok := call.Fun.(*ast.SelectorExpr); ok {
+					if pid, ok := f.X.(*ast.Ident); ok {
+						if _, isPkg := t.info.Uses[pid].(*types.PkgName); isPkg {
+							if lid, ok := x.Lhs[0].(*ast.Ident); ok && lid.Name != "_" && t.info.Defs[lid] != nil && isAbstractType(t.info.Defs[lid].Type()) {
+								if t.freshLocal == nil {
+									t.freshLocal = map[types.Object]bool{}
+								}
+								t.freshLocal[t.info.Defs[lid]] = true
+							}
+						}
+					}
+				}
+			}
+		}
 		// tvr := CreateValidationResults(): results of the function's own, empty to begin with
 		if !implResults && len(x.Lhs) == 1 && len(x.Rhs) == 1 && x.Tok == token.DEFINE {
 			if call, ok := x.Rhs[0].(*ast.CallExpr); ok && len(call.Args) == 0 && isVR(t.info.TypeOf(call)) {
@@ -1835,6 +1895,13 @@ func (t *tr) block0(stmts []ast.Stmt, c sctx, ind string) string {
 		if !hasJump(x.Body) && (x.Else == nil || !hasJump(x.Else)) {
 			vs := t.assigned(x)
 			if len(vs) == 0 {
+				// nothing the rest can see is assigned: the branches are translated all the same, so that a statement in
+				// them that is outside the subset (a store through a field of an abstract value, say) is refused and not
+				// silently dropped with the branch
+				noJump0 := func(string) string { t.fail(x, "internal: jump in a branch taken as assignment-only"); return "" }
+				c0 := sctx{fall: "tt", ret: noJump0, emit: noJump0}
+				t.block(x.Body.List, c0, ind)
+				t.block(els, c0, ind)
 				return t.block(rest, c, ind)
 			}
 			pat, _ := t.tupleOf(x, vs)
@@ -1995,6 +2062,28 @@ func (t *tr) block0(stmts []ast.Stmt, c sctx, ind string) string {
 			if name, ok := t.pkgEffectCall(call); ok {
 				lg := t.names[t.logVar]
 				return "let " + lg + " := (" + lg + " ++ [GoDo \"" + name + "\"])%list in" + nl + t.block(rest, c, ind)
+			}
+		}
+		// h.Write(b) for a local variable h holding an opaque value of an imported type that was made by a function of
+		// that package (h := sha256.New()): the call may change the value - h becomes an unknown function of the old h and
+		// the arguments; what the call returns is dropped
+		if call, ok := x.X.(*ast.CallExpr); ok {
+			if f, ok := call.Fun.(*ast.SelectorExpr); ok {
+				if id, ok := f.X.(*ast.Ident); ok && t.freshLocal[t.info.Uses[id]] {
+					if prefix, isAbs := t.absPath(f.X); isAbs && strings.HasPrefix(prefix, "\x00") {
+						parts := strings.SplitN(prefix[1:], "\x00", 2)
+						local, obs := parts[0], parts[1]
+						tys := []string{"go_val"}
+						as := []string{local}
+						for _, a := range call.Args {
+							tys = append(tys, t.coqType(a, t.info.TypeOf(a)))
+							as = append(as, t.expr(a))
+						}
+						ty := "(" + strings.Join(append(tys, "go_val"), " -> ") + ")"
+						name := t.observe(obs+"_"+f.Sel.Name+"_upd", ty)
+						return "let " + local + " := (" + name + " " + strings.Join(as, " ") + ") in" + nl + t.block(rest, c, ind)
+					}
+				}
 			}
 		}
 		t.fail(s, "expression statement")
@@ -2213,8 +2302,31 @@ func (t *tr) markMutated(e ast.Expr) {
 	t.mut = true
 }
 
+// unconv: e without conversions between pointer types whose pointees are translated alike ((*TagList)(c) for a
+// *CIDRList c: the same list under another method set)
+func (t *tr) unconv(e ast.Expr) ast.Expr {
+	for {
+		switch x := e.(type) {
+		case *ast.ParenExpr:
+			e = x.X
+			continue
+		case *ast.CallExpr:
+			if tv, ok := t.info.Types[x.Fun]; ok && tv.IsType() && len(x.Args) == 1 {
+				pd, ok1 := tv.Type.Underlying().(*types.Pointer)
+				ps, ok2 := t.info.TypeOf(x.Args[0]).Underlying().(*types.Pointer)
+				if ok1 && ok2 && t.coqType(x, pd.Elem()) == t.coqType(x, ps.Elem()) {
+					e = x.Args[0]
+					continue
+				}
+			}
+		}
+		return e
+	}
+}
+
 // lhsRef: the receiver (or a local) whose updated value a mutating method call rebinds
 func (t *tr) lhsRef(e ast.Expr) string {
+	e = t.unconv(e)
 	if id, ok := e.(*ast.Ident); ok {
 		if n, ok := t.names[t.info.Uses[id]]; ok && n != "" {
 			if t.info.Uses[id] == t.recv {
